@@ -23,6 +23,16 @@ LEVEL_NOTE = ("Not decided: that applying the *printed text* with a patch tool r
               "joining lines that may contain lone CR), and real-run failures that come from VCS state.")
 
 ENGINES = (("v2rewrite", "v2version", "cli._v2_get_diff"), ("v1rewrite", "v1version", "cli._v1_get_diff"))
+# the third element is the pinned tree's name of the function that calls <engine>.diff; the function is located by that
+# role (the function reachable from cli.get_diff that contains the call), so inlining it into get_diff does not matter
+
+
+def _diff_callers(prog, effects, rw: str) -> T.List[T.Any]:
+    out = []
+    for fq in sorted(effects.reachable_functions(["cli.get_diff"])):
+        if fq.startswith("cli.") and shapes.find_calls(prog, prog.function(fq), f"{rw}.diff"):
+            out.append(prog.function(fq))
+    return out
 
 
 def _open_kwargs(call: ast.Call) -> T.Dict[str, str]:
@@ -104,6 +114,9 @@ def run(ctx) -> None:
         d = prog.function(f"{rw}.diff")
         it = prog.function(f"{rw}.iter_rewritten")
         wf = prog.function(f"{rw}.rewrite_files")
+        gds = _diff_callers(prog, effects, rw)
+        ctx.require(len(gds) == 1, f"{rw}.diff is called from {len(gds)} functions below cli.get_diff")
+        getdiff = gds[0].fq
         ctx.visit(d.fq, it.fq, wf.fq, getdiff)
 
         def file_loop(fn) -> ast.For:
@@ -204,11 +217,14 @@ def run(ctx) -> None:
     pc = PathCond(g)
     atom = [a for a in pc.atoms if a.endswith("is_new_pattern")]
     ctx.require(len(atom) == 1, "get_diff: no branch on cfg.is_new_pattern")
-    for callee, want in (("cli._v2_get_diff", BF.var(atom[0])), ("cli._v1_get_diff", ~BF.var(atom[0]))):
-        cs = shapes.find_calls(prog, gdf, callee)
-        ctx.require(len(cs) == 1, f"get_diff: call to {callee} missing")
-        ctx.check("R2", pc.reach(g.node_containing(cs[0])).project(atom).equiv(want), f"get_diff: {callee.split('.')[-1]} selected by cfg.is_new_pattern (as in _update)",
-                  "cli.get_diff: engine selection differs from the real update", "", loc=gdf.loc(cs[0]))
+    ip13 = ctx.interproc(())
+    for rw_, want in (("v2rewrite", BF.var(atom[0])), ("v1rewrite", ~BF.var(atom[0]))):
+        caller = _diff_callers(prog, effects, rw_)[0]
+        cs = shapes.find_calls(prog, caller, f"{rw_}.diff")
+        ctx.require(len(cs) == 1, f"get_diff: {len(cs)} calls of {rw_}.diff")
+        r = ip13.site_condition(caller, cs[0], gdf.fq)
+        ctx.check("R2", r.project(atom).equiv(want), f"get_diff: {rw_}.diff selected by cfg.is_new_pattern (as in _update)",
+                  "cli.get_diff: engine selection differs from the real update", r.to_dnf(), loc=caller.loc(cs[0]))
 
     # ---------------------------------------------------------------- R3
     # C13 constrains the dry run only when it exits 0: every failure of the real rewrite phase must also be a
@@ -257,7 +273,8 @@ def run(ctx) -> None:
         # text that is (part of) the diff: parameters / locals named by the data flow from difflib or diff()/get_diff()
         seeds = {p_ for p_ in fn.all_params if "diff" in p_.lower()}
         for _st, tg, val in shapes.iter_assigns(fn.node):
-            if any(isinstance(c, ast.Call) and (unparse(c.func).split(".")[-1] in ("diff", "get_diff", "_v1_get_diff", "_v2_get_diff", "diff_lines", "unified_diff")) for c in ast.walk(val)):
+            if any(isinstance(c, ast.Call) and (unparse(c.func).split(".")[-1] in ("diff", "get_diff", "_v1_get_diff", "_v2_get_diff", "diff_lines", "unified_diff")
+                                               or unparse(c.func).split(".")[-1].endswith("get_diff")) for c in ast.walk(val)):
                 seeds |= {x.id for x in ast.walk(tg) if isinstance(x, ast.Name)}
         tainted = shapes.tainted_names(fn, seeds) if seeds else set()
         for c in ast.walk(fn.node):
